@@ -214,7 +214,7 @@ type someStruct struct {
 	b string
 }
 
-var otherNames = []string{"[]int", "struct", "chan", "func", "typed-nil-ptr", "named-map", "uint8", "float32", "[]interface{}", "map[string]int", "uint64", "nil-slice", "ptr-to-map", "complex128", "int16", "uint"}
+var otherNames = []string{"[]int", "struct", "chan", "func", "typed-nil-ptr", "named-map", "uint8", "float32", "[]interface{}", "map[string]int", "uint64", "nil-slice", "ptr-to-map", "complex128", "int16", "uint", "map[string]string", "[]interface{} of 20"}
 
 func mkOther(tag int) interface{} {
 	switch tag % len(otherNames) {
@@ -249,6 +249,14 @@ func mkOther(tag int) interface{} {
 		return complex(1, 2)
 	case 14:
 		return int16(3)
+	case 16:
+		return map[string]string{"env": "prod", "a": "1", "b": "x", "c": "abc", "x": "1.0.0", "k": "true"}
+	case 17:
+		l := make([]interface{}, 20)
+		for i := range l {
+			l[i] = i
+		}
+		return l
 	default:
 		return uint(7)
 	}
